@@ -72,6 +72,10 @@ def apply_ops(ops):
         elif k == 'read':
             if list(real) != model:
                 return list(real), model
+        elif k == 'radd':
+            # `words + args`: a new list of the plain words as given, to which the whole list is added as one increment
+            real = list(op[1]) + real
+            model = eager_iadd(list(op[1]), model, ovr, uniq, prep)
         elif k == 'add':
             real = real + list(op[1])
             model = eager_iadd(model, list(op[1]), ovr, uniq, prep)
@@ -102,6 +106,9 @@ def op_alphabet(alpha):
             ops.append(('iadd', b))
     for b in itertools.product(['-lfoo', '-lm', '-L/q', 'x.c'], repeat=2):       # '-lm' is in the C-like always-dedup table
         ops.append(('epl', b))
+    for a in alpha:
+        ops.append(('radd', (a,)))
+    ops += [('radd', ('-Ia', '-Dx')), ('radd', ('-lfoo', 'x.c'))]
     ops += [('copy',), ('read',)]
     ops += [('insert', 0, alpha[0]), ('insert', 1, alpha[2])]
     return ops
